@@ -184,3 +184,127 @@ func init() {
 	intrinsics["(*regexp.Regexp).MatchString"] = match
 	intrinsics["(*regexp.Regexp).Match"] = match
 }
+
+// ---------------------------------------------------------------------------
+// FindStringSubmatch on a symbolic subject.
+//
+// The subject is decomposed along the pattern: every component of a
+// concatenation becomes a fresh string constrained to the component's language,
+// capture groups record their component. Optional groups and alternations that
+// contain captures fork. This is the set of all decompositions; it coincides with
+// Go's leftmost-first choice when the decomposition is unique (true for the
+// patterns of the repo: digit runs separated by non-digit literals), otherwise it
+// over-approximates (any violation is confirmed by native replay).
+
+type subm struct {
+	caps  map[int]string // capture index -> term
+	conds []string
+}
+
+func hasCapture(re *syntax.Regexp) bool {
+	if re.Op == syntax.OpCapture {
+		return true
+	}
+	for _, s := range re.Sub {
+		if hasCapture(s) {
+			return true
+		}
+	}
+	return false
+}
+
+func (sm *subm) build(re *syntax.Regexp) (string, error) {
+	if !hasCapture(re) {
+		switch re.Op {
+		case syntax.OpBeginText, syntax.OpEndText, syntax.OpEmptyMatch:
+			return "\"\"", nil
+		}
+		r, err := reToSMT(re)
+		if err != nil {
+			return "", err
+		}
+		v := X.fresh("re.part", "String")
+		sm.conds = append(sm.conds, "(str.in_re "+v+" "+r+")")
+		return v, nil
+	}
+	switch re.Op {
+	case syntax.OpCapture:
+		t, err := sm.build(re.Sub[0])
+		if err != nil {
+			return "", err
+		}
+		sm.caps[re.Cap] = t
+		return t, nil
+	case syntax.OpConcat:
+		var ts []string
+		for _, s := range re.Sub {
+			t, err := sm.build(s)
+			if err != nil {
+				return "", err
+			}
+			ts = append(ts, t)
+		}
+		return "(str.++ " + strings.Join(ts, " ") + " \"\")", nil
+	case syntax.OpQuest:
+		if X.choose("regexp-optional-group", 2) == 0 {
+			return sm.build(re.Sub[0])
+		}
+		return "\"\"", nil
+	case syntax.OpAlternate:
+		k := X.choose("regexp-alternative", len(re.Sub))
+		return sm.build(re.Sub[k])
+	}
+	return "", fmt.Errorf("capture group under operator %v", re.Op)
+}
+
+func init() {
+	intrinsics["(*regexp.Regexp).FindStringSubmatch"] = func(fr *frame, a []value) value {
+		var subj string
+		switch s := a[1].(type) {
+		case string:
+			return notHandled{}
+		case symStr:
+			subj = s.t
+		case symAtom:
+			subj = atomStrTerm(s.t)
+		default:
+			panic(engineErr(fmt.Sprintf("FindStringSubmatch on %T", a[1])))
+		}
+		re := derefStruct(a[0], "regexp.Regexp")
+		pat := re[0].(string)
+		whole, err := patternToSMT(pat)
+		if err != nil {
+			panic(engineErr("regexp " + pat + ": " + err.Error()))
+		}
+		if !X.branch(mkBool("(str.in_re "+subj+" "+whole+")"), "regexp-match") {
+			return []value(nil)
+		}
+		ast, err := syntax.Parse(pat, syntax.Perl)
+		if err != nil {
+			panic(engineErr(err.Error()))
+		}
+		ast = ast.Simplify()
+		if !(strings.HasPrefix(pat, "^") && strings.HasSuffix(pat, "$")) {
+			panic(engineErr("FindStringSubmatch on a symbolic subject needs a pattern anchored at both ends: " + pat))
+		}
+		sm := &subm{caps: map[int]string{}}
+		t, err := sm.build(ast)
+		if err != nil {
+			panic(engineErr("regexp " + pat + ": " + err.Error()))
+		}
+		X.assume(mkBool("(and (= " + subj + " " + t + ") " + strings.Join(append(sm.conds, "true"), " ") + ")"))
+		out := []value{a[1]}
+		for i := 1; i <= ast.MaxCap(); i++ {
+			if c, ok := sm.caps[i]; ok {
+				if c == "\"\"" {
+					out = append(out, "")
+				} else {
+					out = append(out, symStr{c})
+				}
+			} else {
+				out = append(out, "")
+			}
+		}
+		return out
+	}
+}
